@@ -312,6 +312,9 @@ type Machine struct {
 	draws         []drawRec
 	summary       bool
 	drawLimit     int
+	coinMode      int // vCoinScript: 0 off, 1 all ones, 2 all zeros, 3 alternating from one
+	coinFree      int // index (among the scripted coins) of the one that stays symbolic, -1 none
+	coinSeen      int
 	drawLimitMsg  string
 	replayIdx     int
 	replayEnd     int
@@ -452,6 +455,7 @@ func (m *Machine) resetPath(prefix []int) {
 	m.summary = false
 	m.replayIdx, m.replayEnd = -1, 0
 	m.drawLimit, m.drawLimitMsg = 0, ""
+	m.coinMode, m.coinFree, m.coinSeen = 0, -1, 0
 	m.fault = nil
 	m.faultHit = false
 	m.shortReads = false
